@@ -108,6 +108,24 @@ def sample_order_rule(chk, repo, clause):
             ok, det = False, f'evaluated at {fmt(arg)[:80]}; returned {fmt(p.ret)[:60]}...'
     chk.ob(clause, 'D-order', f.key, 'values are returned for the requested wavelengths in the requested order',
            (ok and n > 0) if ok is not None else None, det or f'{n} path(s): interp(wave)', f.loc())
+    # ... interpolated the way that was asked for: the interpolant is built with the caller's method and fill value on every
+    # path (a silent fall-back to another order of interpolation gives other values between the samples)
+    okm, nm, detm = True, 0, ''
+    for p in returns(paths):
+        for e in p.events:
+            if e.kind == 'call' and str(e.data.get('callee', '')).endswith('scipy.interpolate.interp1d'):
+                nm += 1
+                kws = e.data.get('kwargs') or {}
+                kind = kws.get('kind', e.data['args'][2] if len(e.data.get('args', [])) > 2 else None)
+                fill = kws.get('fill_value')
+                if kind != S('method'):
+                    okm = False
+                    detm = f'interp1d(kind={fmt(kind) if kind is not None else "default"}) [{conds_str(p)[:100]}]: not the requested method'
+                elif fill is not None and fill != S('fill_value'):
+                    okm = False
+                    detm = f'interp1d(fill_value={fmt(fill)[:40]}) [{conds_str(p)[:100]}]: not the requested fill value'
+    chk.ob(clause, 'D-flow', f.key, 'the interpolant is built with the requested method and fill value on every path',
+           okm if nm else None, detm or f'{nm} interp1d call(s) with kind=method, fill_value=fill_value', f.loc())
 
 
 def bayer_string_rule(chk, repo, clause):
